@@ -81,3 +81,221 @@ Proof.
     rewrite Forall_forall in Hex. destruct (Hex (nth i offs 0)) as (_ & _ & H2); [apply nth_In; exact Hi|].
     unfold half16. lia.
 Qed.
+
+(* ------------------------------------------------------------------ *)
+(* GlyfLocaBuilder                                                      *)
+Fixpoint offsets_from (cur : Z) (chunks : list (list Z)) : list Z :=
+  match chunks with
+  | [] => []
+  | c :: r => (cur + zlen c) :: offsets_from (cur + zlen c) r
+  end.
+
+Lemma write_simple_before before g : before mod 2 = 0 -> write_simple before g = write_simple 0 g.
+Proof.
+  intros H. unfold write_simple.
+  destruct (32767 <=? zlen (g_contours g)); [reflexivity|].
+  destruct (65535 <=? zlen (g_instr g)); [reflexivity|].
+  destruct (zlen (g_contours g) =? 0); [reflexivity|].
+  destruct (end_points 0 (g_contours g)); [|reflexivity]. cbn [obind].
+  destruct (point_deltas 0 0 (concat (g_contours g))); [|reflexivity]. cbn [obind].
+  destruct (entries_bytes _); [|reflexivity]. cbn [obind].
+  rewrite (pad2_even_before before) by assumption. reflexivity.
+Qed.
+Lemma write_composite_before before g : before mod 2 = 0 -> write_composite before g = write_composite 0 g.
+Proof.
+  intros H. unfold write_composite. destruct (cg_comps g); [reflexivity|].
+  rewrite (pad2_even_before before) by assumption. reflexivity.
+Qed.
+Lemma write_glyph_before before g : before mod 2 = 0 -> write_glyph before g = write_glyph 0 g.
+Proof.
+  intros H. destruct g; cbn [write_glyph]; [reflexivity | apply write_simple_before | apply write_composite_before]; assumption.
+Qed.
+Lemma write_simple_even g b : write_simple 0 g = Some b -> zlen b mod 2 = 0.
+Proof.
+  unfold write_simple.
+  destruct (32767 <=? zlen (g_contours g)); [discriminate|].
+  destruct (65535 <=? zlen (g_instr g)); [discriminate|].
+  destruct (zlen (g_contours g) =? 0); [intros [= <-]; reflexivity|].
+  destruct (end_points 0 (g_contours g)); [|discriminate]. cbn [obind].
+  destruct (point_deltas 0 0 (concat (g_contours g))); [|discriminate]. cbn [obind].
+  destruct (entries_bytes _); [|discriminate]. cbn [obind].
+  intros [= <-]. apply pad2_even. reflexivity.
+Qed.
+Lemma write_glyph_even g b : write_glyph 0 g = Some b -> zlen b mod 2 = 0.
+Proof.
+  destruct g; cbn [write_glyph].
+  - intros [= <-]. reflexivity.
+  - apply write_simple_even.
+  - unfold write_composite. destruct (cg_comps g); [discriminate|]. intros [= <-]. apply pad2_even. reflexivity.
+Qed.
+
+Lemma builder_go_spec : forall gs data loca res,
+  builder_go data loca gs = Some res -> forallb validate_glyph gs = true -> zlen data mod 2 = 0 ->
+  exists chunks,
+    Forall2 (fun g c => write_glyph 0 g = Some c) gs chunks
+    /\ fst res = data ++ concat chunks
+    /\ snd res = loca ++ map (fun o => o mod 4294967296) (offsets_from (zlen data) chunks).
+Proof.
+  induction gs as [|g gs IH]; intros data loca res H Hv He.
+  - cbn in H. injection H as <-. exists []. cbn. rewrite !app_nil_r. repeat split. constructor.
+  - cbn [builder_go] in H. cbn [forallb] in Hv. apply andb_prop in Hv. destruct Hv as [Hg Hv]. rewrite Hg in H.
+    rewrite write_glyph_before in H by assumption.
+    destruct (write_glyph 0 g) as [b|] eqn:Eb; [|discriminate]. cbn [obind] in H.
+    pose proof (write_glyph_even g b Eb) as Hbe.
+    destruct (IH (data ++ b) (loca ++ [zlen (data ++ b) mod 4294967296]) res H Hv) as (chunks & F & D & L).
+    { rewrite zlen_app. lia. }
+    exists (b :: chunks). split; [constructor; assumption|]. split.
+    + rewrite D. cbn [concat]. rewrite app_assoc. reflexivity.
+    + rewrite L. cbn [offsets_from map]. rewrite <- app_assoc. rewrite zlen_app. reflexivity.
+Qed.
+
+Lemma offsets_from_bound chunks : forall cur,
+  Forall (fun o => cur <= o <= cur + zlen (concat chunks)) (offsets_from cur chunks).
+Proof.
+  induction chunks as [|c chunks IH]; intros cur; [constructor|].
+  cbn [offsets_from]. rewrite zlen_concat_cons.
+  pose proof (zlen_nonneg c). pose proof (zlen_nonneg (concat chunks)).
+  constructor; [lia|]. eapply Forall_impl; [|apply IH]. cbn beta. intros a Ha. lia.
+Qed.
+Lemma offsets_from_length chunks : forall cur, length (offsets_from cur chunks) = length chunks.
+Proof. induction chunks; intros; cbn; auto. Qed.
+Lemma offsets_nth_pre pre : forall cur tail,
+  nth (length pre) (cur :: offsets_from cur pre ++ tail) 0 = cur + zlen (concat pre).
+Proof.
+  induction pre as [|a pre IH]; intros cur tail.
+  - cbn. lia.
+  - cbn [length offsets_from app]. rewrite zlen_concat_cons.
+    change (nth (S (length pre)) (cur :: ?l) 0) with (nth (length pre) l 0).
+    rewrite IH. lia.
+Qed.
+Lemma offsets_from_app pre post : forall cur,
+  offsets_from cur (pre ++ post) = offsets_from cur pre ++ offsets_from (cur + zlen (concat pre)) post.
+Proof.
+  induction pre as [|a pre IH]; intros cur.
+  - cbn. f_equal. lia.
+  - cbn [app offsets_from]. rewrite IH, zlen_concat_cons.
+    replace (cur + zlen a + zlen (concat pre)) with (cur + (zlen a + zlen (concat pre))) by lia. reflexivity.
+Qed.
+Lemma last_app_cons {A} (l : list A) a d : last (l ++ [a]) d = a.
+Proof. induction l as [|x l IH]; [reflexivity|]. cbn [app]. rewrite last_cons_ne; [exact IH|]. destruct l; discriminate. Qed.
+Lemma offsets_last chunks : forall cur, last (cur :: offsets_from cur chunks) 0 = cur + zlen (concat chunks).
+Proof.
+  induction chunks as [|c chunks IH]; intros cur.
+  - cbn. lia.
+  - cbn [offsets_from]. rewrite last_cons_ne by discriminate. rewrite IH, zlen_concat_cons. lia.
+Qed.
+
+Lemma slice_concat (pre : list (list Z)) c post :
+  firstn (Z.to_nat (zlen c)) (skipn (Z.to_nat (zlen (concat pre))) (concat (pre ++ c :: post))) = c.
+Proof. rewrite concat_app. rewrite skipn_zlen_app. cbn [concat]. apply firstn_zlen_app. Qed.
+
+(* glyph i of (glyf, loca) is the i-th glyph added: its slice is exactly the bytes that glyph compiles
+   to on its own (which simple_roundtrip / composite_roundtrip decode); an empty glyph has equal
+   consecutive offsets (Ok(None)); for whichever loca format was chosen *)
+Lemma builder_glyph_i gs glyf loca long :
+  build gs = Some (glyf, loca, long) -> forallb validate_glyph gs = true -> zlen glyf < 4294967296 ->
+  exists chunks es,
+    Forall2 (fun g c => write_glyph 0 g = Some c) gs chunks
+    /\ glyf = concat chunks /\ loca = 0 :: offsets_from 0 chunks /\ long = loca_is_long loca
+    /\ loca_read (loca_bytes loca) long = Some es
+    /\ forall i c, nth_error chunks i = Some c ->
+         get_glyf_slice es long glyf (Z.of_nat i) = if zlen c =? 0 then ROk None else ROk (Some c).
+Proof.
+  unfold build. intros H Hv Hsz.
+  destruct (builder_go [] [0] gs) as [res|] eqn:E; [|discriminate]. cbn [obind] in H.
+  injection H as H1 H2 H3.
+  destruct (builder_go_spec gs [] [0] res E Hv eq_refl) as (chunks & F & D & L).
+  cbn [app] in D. rewrite H1 in D. rewrite H2 in L. change (zlen (@nil Z)) with 0 in L.
+  assert (Hid : map (fun o => o mod 4294967296) (offsets_from 0 chunks) = offsets_from 0 chunks).
+  { rewrite <- (map_id (offsets_from 0 chunks)) at 2. apply map_ext_in. intros a Ha.
+    pose proof (offsets_from_bound chunks 0) as B. rewrite Forall_forall in B. specialize (B a Ha).
+    rewrite <- D in B. lia. }
+  rewrite Hid in L. cbn [app] in L.
+  assert (Hb : Forall (fun o => u32 o /\ o <= last loca 0) loca).
+  { rewrite L. rewrite offsets_last. rewrite <- D. pose proof (zlen_nonneg glyf).
+    constructor; [unfold u32; lia|].
+    pose proof (offsets_from_bound chunks 0) as B. rewrite <- D in B.
+    eapply Forall_impl; [|exact B]. cbn beta. unfold u32. intros a Ha. lia. }
+  destruct (loca_roundtrip loca Hb) as (es & R & G). rewrite H2 in H3. subst long.
+  exists chunks, es. split; [assumption|]. split; [assumption|]. split; [assumption|]. split; [reflexivity|]. split; [assumption|].
+  intros i c Hc. apply nth_error_split in Hc. destruct Hc as (pre & post & -> & <-).
+  unfold get_glyf_slice.
+  assert (Hlen : length loca = S (length (pre ++ c :: post))) by (rewrite L; cbn [length]; rewrite offsets_from_length; reflexivity).
+  rewrite app_length in Hlen. cbn [length] in Hlen.
+  rewrite (G (length pre)) by lia.
+  replace (Z.of_nat (length pre) + 1) with (Z.of_nat (S (length pre))) by lia.
+  rewrite (G (S (length pre))) by lia.
+  rewrite L. rewrite offsets_from_app. cbn [offsets_from].
+  rewrite offsets_nth_pre.
+  change (nth (S (length pre)) (0 :: ?l) 0) with (nth (length pre) l 0).
+  rewrite app_nth2 by (rewrite offsets_from_length; lia). rewrite offsets_from_length, Nat.sub_diag. cbn [nth].
+  pose proof (zlen_nonneg c). pose proof (zlen_nonneg (concat pre)).
+  destruct (zlen c =? 0) eqn:Ez.
+  - replace (0 + zlen (concat pre) =? 0 + zlen (concat pre) + zlen c) with true by lia. reflexivity.
+  - replace (0 + zlen (concat pre) =? 0 + zlen (concat pre) + zlen c) with false by lia.
+    assert (Htot : zlen glyf = zlen (concat pre) + zlen c + zlen (concat post)).
+    { rewrite D, concat_app, zlen_app, zlen_concat_cons. lia. }
+    pose proof (zlen_nonneg (concat post)).
+    replace ((0 + zlen (concat pre) <? 0 + zlen (concat pre) + zlen c) && (0 + zlen (concat pre) + zlen c <=? zlen glyf)) with true by lia.
+    replace (0 + zlen (concat pre) + zlen c - (0 + zlen (concat pre))) with (zlen c) by lia.
+    replace (0 + zlen (concat pre)) with (zlen (concat pre)) by lia.
+    rewrite D. rewrite slice_concat. reflexivity.
+Qed.
+
+(* ------------------------------------------------------------------ *)
+(* "never longer than the canonical shortest encoding"                  *)
+(* which (form, byte) pairs a reader can decode to the delta d (the sign of a short comes from the flag) *)
+Inductive form_decodes : cdelta -> Z -> Prop :=
+| FD_skip : form_decodes Skip 0
+| FD_short b d : 0 <= b <= 255 -> (d = b \/ d = - b) -> form_decodes (Short b) d
+| FD_long d : i16 d -> form_decodes (Long d) d.
+
+(* per coordinate the chosen form is the shortest one that represents the delta, and it does represent it *)
+Lemma delta_choice_shortest v s m form : i16 v -> form_decodes form v ->
+  form_decodes (snd (flag_and_delta v s m)) v /\ csize (snd (flag_and_delta v s m)) <= csize form.
+Proof.
+  intros Hv Hf.
+  destruct (fad_cases v s m) as [[Hz E]|[[Hz E]|[[Hz E]|[Hz E]]]]; rewrite E; cbn [snd csize].
+  - subst v. split; [constructor|]. destruct form; cbn; lia.
+  - split; [constructor; lia|]. inversion Hf; subst; cbn; lia.
+  - split; [constructor; lia|]. inversion Hf; subst; cbn; lia.
+  - split; [constructor; assumption|]. inversion Hf; subst; cbn; lia.
+Qed.
+
+(* the flag bytes of a run: k identical flags cost 2*(k/256) + min 2 (k mod 256) bytes *)
+Lemma rle_run_state f : flag_ok f -> forall n F r,
+  valid_entry (F, r) -> clr_repeat F = f ->
+  zlen (bytes_of (rle_go (Some (F, r)) (repeat f n)))
+  = 2 * ((r + 1 + Z.of_nat n) / 256) + Z.min 2 ((r + 1 + Z.of_nat n) mod 256).
+Proof.
+  intros [Hfb Hfn]. induction n as [|n IH]; intros F r [Hb [Hr Hh]] Hc; cbn [fst snd] in *.
+  - cbn [repeat rle_go flush_entry]. destruct (r =? 1) eqn:E1.
+    + unfold bytes_of. cbn [flat_map]. unfold entry_bytes_t. cbn [fst snd].
+      rewrite clr_no_repeat by assumption. cbn [app]. change (zlen [clr_repeat F; clr_repeat F]) with 2. lia.
+    + unfold bytes_of. cbn [flat_map]. unfold entry_bytes_t. cbn [fst snd]. rewrite Hh, app_nil_r.
+      destruct (0 <? r) eqn:E0.
+      * change (zlen [F; r]) with 2. lia.
+      * change (zlen [F]) with 1. lia.
+  - cbn [repeat rle_go]. rewrite Hc, Z.eqb_refl. cbn [andb].
+    destruct (r <? 255) eqn:E.
+    + rewrite IH.
+      * f_equal; [f_equal; f_equal; lia | f_equal; f_equal; lia].
+      * split; [apply set_byte; assumption|]. cbn [fst snd]. split; [lia|]. rewrite set_has by assumption. lia.
+      * rewrite clr_set by assumption. exact Hc.
+    + assert (r = 255) by lia. subst r. rewrite bytes_of_app, zlen_app.
+      rewrite IH.
+      * cbn [flush_entry]. change (255 =? 1) with false. cbv iota.
+        unfold bytes_of at 1. cbn [flat_map]. unfold entry_bytes_t. cbn [fst snd]. rewrite Hh.
+        change (0 <? 255) with true. cbv iota. rewrite app_nil_r. change (zlen [F; 255]) with 2. lia.
+      * split; [assumption|]. cbn [fst snd]. split; [lia|]. rewrite Hfn. reflexivity.
+      * apply clr_id; assumption.
+Qed.
+Lemma flags_rle_run_length f k : flag_ok f -> (0 < k)%nat ->
+  zlen (bytes_of (rle (repeat f k))) = 2 * (Z.of_nat k / 256) + Z.min 2 (Z.of_nat k mod 256).
+Proof.
+  intros Hf Hk. destruct k as [|n]; [lia|]. unfold rle. cbn [repeat rle_go].
+  rewrite (rle_run_state f Hf n f 0).
+  - f_equal; [f_equal; f_equal; lia | f_equal; f_equal; lia].
+  - destruct Hf as [Hb Hn]. split; [assumption|]. cbn [fst snd]. split; [lia|]. rewrite Hn. reflexivity.
+  - destruct Hf. apply clr_id; assumption.
+Qed.
